@@ -139,7 +139,7 @@ func cmdCrashChild(args []string) error {
 		startRefs[c] = tr.C(0)
 	}
 	emit(SeqStep{K: "reset", Tr: 1, Mode: "disk", Coll: "-", Op: "-", A: x.emptyArgs(), R: Res{Cls: "ok", Body: NoBody(), Cas: tr.C(0)},
-		Post: []PostDoc{}, Live: []CollEvs{}, Dump: []CollEvs{}, Aux: []AuxObs{}, Start: startRefs, Skiplive: true, P: "-", Shown: []*CasRef{}, Dump2: []Dump2Obs{}, Mlive: []CollEvs{}})
+		Post: []PostDoc{}, Live: []CollEvs{}, Dump: []CollEvs{}, Aux: []AuxObs{}, Start: startRefs, Skiplive: true, P: "-", Shown: []*CasRef{}, Dump2: []Dump2Obs{}, Mlive: []CollEvs{}, Klive: []CollEvs{}})
 	emit(map[string]any{"k": "bodies", "table": bodyTableJSON()})
 	prevDoc := map[string]string{}
 	{
@@ -167,7 +167,7 @@ func cmdCrashChild(args []string) error {
 		a, r := x.Exec(colls[op.Coll], b, &gop)
 		cur = 0 // observation reads below must not trigger the crash hook
 		step := SeqStep{K: "call", Tr: 1, I: i + 1, Mode: "disk", Coll: op.Coll, Op: op.Op, A: a, R: r,
-			Post: []PostDoc{}, Live: []CollEvs{}, Dump: []CollEvs{}, Aux: []AuxObs{}, Start: startRefs, Skiplive: true, P: "-", Shown: []*CasRef{}, Dump2: []Dump2Obs{}, Mlive: []CollEvs{}}
+			Post: []PostDoc{}, Live: []CollEvs{}, Dump: []CollEvs{}, Aux: []AuxObs{}, Start: startRefs, Skiplive: true, P: "-", Shown: []*CasRef{}, Dump2: []Dump2Obs{}, Mlive: []CollEvs{}, Klive: []CollEvs{}}
 		for _, c := range collNames {
 			step.Live = append(step.Live, CollEvs{C: c, Evs: []Ev{}})
 			for _, k := range pathKeys {
